@@ -155,6 +155,8 @@ def ref_oracle(case, obs):
     agrees (or the reference does not decide), else a description."""
     if case.get('ref_status') != 'ok' or obs is None or 'res' not in obs:
         return None
+    if obs.get('res') == 'limit':
+        return None              # the step budget of the trace ended first: nothing to compare yet
     it = case['ref']
     exp = {'res': 'empty', 'err': '', 'tr': sqfast.fmt_value(it.tr)}
     for g in ('g1', 'g2', 'gx'):
